@@ -148,7 +148,7 @@ def _ctx_for(mods, expand=0):
     if (tuple(mods), 0) not in _CTX and (tuple(mods), SCOPE_K) not in _CTX:
         load_sidecars(mods)
     if key not in _CTX:
-        _CTX[key] = Ctx(expand_quant=expand, max_depth=3 if expand == COVER_K else 7)
+        _CTX[key] = Ctx(expand_quant=expand, max_depth=(expand + 2) if expand else 7)
     return _CTX[key]
 
 
@@ -197,7 +197,7 @@ def worker(task):
         return dict(key=key, kind=kind, shard=k, crash=traceback.format_exc(), results=[], gen_s=time.time() - t_start)
     gen_s = time.time() - t_start
     results = []
-    cex = None  # lazily generated small-scope version
+    cexs = {}  # lazily generated small-scope versions, by scope
     cov = None
     n_ax = len(ctx.axioms_z3)
     for i, o in enumerate(obls):
@@ -248,26 +248,28 @@ def worker(task):
         if r == "sat" and has_quantifier(list(o.pc) + [o.goal]):
             r, model = "unknown", None  # a model under quantifiers is not trusted
         if r == "unknown":
-            # (a) look for a small-scope counterexample (quantifiers expanded, so a model is real)
-            try:
-                if cex is None:
-                    cex = generate(mods, kind, key, SCOPE_K)
-                    cex = cex + (list(cex[0].scope_assumptions),)
-                cctx, cobls, centry = cex[0], cex[1], cex[2]
-                co = cobls[i]
-                assert co.name == o.name, (co.name, o.name)
-                r2, dt2, model2, _ = check(tuple(co.pc) + tuple(cex[5]), co.goal, min(timeout_ms, 20000))
-                dt += dt2
-                if r2 == "sat":
-                    r, model = "sat", model2
-                    rec["model"] = extract_inputs(cctx, model2, centry)
-                    rec["have_model"] = True
-                    rec["scope"] = SCOPE_K
-                    backend = "z3-5.1.0 (small-scope expansion)"
-                else:
+            # (a) look for a small-scope counterexample (quantifiers expanded, recursion unrolled,
+            # so a model is real); a ladder of scopes: the small one answers in milliseconds
+            for K in (COVER_K, SCOPE_K):
+                try:
+                    if K not in cexs:
+                        g = generate(mods, kind, key, K)
+                        cexs[K] = g + (list(g[0].scope_assumptions),)
+                    cctx, cobls, centry = cexs[K][0], cexs[K][1], cexs[K][2]
+                    co = cobls[i]
+                    assert co.name == o.name, (co.name, o.name)
+                    r2, dt2, model2, _ = check(tuple(co.pc) + tuple(cexs[K][5]), co.goal, min(timeout_ms, 30000))
+                    dt += dt2
+                    if r2 == "sat":
+                        r, model = "sat", model2
+                        rec["model"] = extract_inputs(cctx, model2, centry)
+                        rec["have_model"] = True
+                        rec["scope"] = K
+                        backend = f"z3-5.1.0 (small-scope expansion, K={K})"
+                        break
                     rec["small_scope"] = r2
-            except Exception as e:
-                rec["small_scope"] = f"error: {e}"
+                except Exception as e:
+                    rec["small_scope"] = f"error: {e}"
         if r == "unknown" and long_pending:
             r, dt2, model, s = check(o.pc, o.goal, timeout_ms)
             dt += dt2
